@@ -1,0 +1,70 @@
+//go:build verif
+// +build verif
+
+package hotkey
+
+// Contracts for the deductive verifier in /verif (govc). Comment-only file.
+
+// ---- C19: the sorted, capped hot-key slice ------------------------------------------------------------
+
+//@ func (*sortedHotKeys).Insert$1
+//@   prop C19
+//@   requires 0 <= i && i < len(deref(s).data) && deref(s).data[i].Counter != nil && key.Counter != nil
+//@   modifies nothing
+//@   ensures result == (deref(s).data[i].Counter.val <= key.Counter.val)
+
+//@ func (*sortedHotKeys).Insert
+//@   prop C19
+//@   requires s != nil && key.Counter != nil
+//@   requires @counters-non-nil forall j int :: 0 <= j && j < len(s.data) ==> s.data[j].Counter != nil
+//@   requires @sorted forall a int, b int :: 0 <= a && a < b && b < len(s.data) ==> s.data[a].Counter.val >= s.data[b].Counter.val
+//@   requires @within-capacity len(s.data) <= int(s.capacity)
+//@   modifies s.data, s.data[0:cap(s.data)]
+//@   ensures @counters-non-nil forall j int :: 0 <= j && j < len(s.data) ==> s.data[j].Counter != nil
+//@   ensures @sorted forall a int, b int :: 0 <= a && a < b && b < len(s.data) ==> s.data[a].Counter.val >= s.data[b].Counter.val
+//@   ensures @within-capacity len(s.data) <= int(s.capacity)
+//@   ensures @grows-by-one-until-full len(s.data) == old(len(s.data)) + ite(old(len(s.data)) < int(s.capacity), 1, 0)
+//@   ensures @prefix-kept forall j int :: 0 <= j && j < i && j < len(s.data) ==> s.data[j].Name == old(s.data[j].Name) && s.data[j].Counter == old(s.data[j].Counter)
+//@   ensures @suffix-shifted forall j int :: i < j && j < len(s.data) ==> s.data[j].Name == old(s.data[j-1].Name) && s.data[j].Counter == old(s.data[j-1].Counter)
+//@   ensures @inserted-at-its-rank result == (i < len(s.data)) && (result ==> s.data[i].Name == key.Name && s.data[i].Counter == key.Counter)
+//@   ensures @rank-in-range 0 <= i && i <= old(len(s.data))
+
+// ---- C19: the logarithmic heat counter -----------------------------------------------------------------
+
+//@ func (*logrithmCounter).ReaptIncr
+//@   prop C19
+//@   requires c != nil
+//@   modifies c.rnd, c.val, c.lut
+//@   ensures @heat-only-grows c.val >= old(c.val)
+//@   ensures @no-visits-no-change times == 0 ==> c.val == old(c.val)
+//@   ensures @at-most-one-step-per-visit uint64(c.val) <= uint64(old(c.val)) + times
+//@   loop 0 invariant c.val >= old(c.val) && uint64(c.val) <= uint64(old(c.val)) + i
+
+//@ func (*logrithmCounter).Halve
+//@   prop C19
+//@   requires c != nil
+//@   modifies c.val, c.lut
+//@   ensures @halved c.val == old(c.val) / 2
+
+// ---- C19: the collector's report ------------------------------------------------------------------------
+
+//@ func (*Collector).evictStale
+//@   prop C19
+//@   requires c != nil
+//@   requires @report-well-formed nonnilkeys(c.keys) && distinctkeys(c.keys) && sortedkeys(c.keys) && len(c.keys) <= int(c.capacity)
+//@   ensures @counters-present nonnilkeys(c.keys)
+//@   ensures @within-capacity len(c.keys) <= int(c.capacity)
+//@   ensures @no-key-twice distinctkeys(c.keys)
+//@   ensures @descending-heat sortedkeys(c.keys)
+//@   ensures @cold-keys-dropped forall j int :: 0 <= j && j < len(c.keys) ==> c.keys[j].Counter.val != 0
+//@   loop 0 invariant nonnilkeys(c.keys) && distinctkeys(c.keys) && len(c.keys) <= int(c.capacity)
+//@   loop 1 invariant nonnilkeys(c.keys) && distinctkeys(c.keys) && len(c.keys) <= int(c.capacity)
+//@   loop 1 invariant (cap(keys) == 0 || fresh(keys)) && len(keys) <= rangeindex + 1 && nonnilkeys(keys) && distinctkeys(keys)
+//@   loop 1 invariant forall j int, i int :: 0 <= j && j < len(keys) && rangeindex < i && i < len(c.keys) ==> keys[j].Name != c.keys[i].Name
+//@   loop 1 invariant forall j int :: 0 <= j && j < len(keys) ==> keys[j].Counter.val != 0
+
+//@ func (*Collector).evictStale$1
+//@   prop C19
+//@   requires 0 <= i && i < len(deref(keys)) && 0 <= j && j < len(deref(keys)) && deref(keys)[i].Counter != nil && deref(keys)[j].Counter != nil
+//@   modifies nothing
+//@   ensures result == (deref(keys)[i].Counter.val > deref(keys)[j].Counter.val)
